@@ -97,6 +97,8 @@ pub struct Spec {
     pub dir: std::path::PathBuf,
     /// additional custom extension types this client supports (capabilities)
     pub exts: Vec<u16>,
+    /// credential identifier (defaults to the party's name)
+    pub identity_name: Option<String>,
 }
 
 pub struct Parts {
@@ -124,7 +126,7 @@ pub fn make_parts(spec: &Spec, suite: CipherSuite) -> Result<Parts, String> {
     let provider = VProvider { kind: spec.provider, log: log.clone() };
     let cs = provider.cipher_suite_provider(suite).ok_or("unsupported suite")?;
     let (signer, public) = cs.signature_key_generate().map_err(|e| format!("{e:?}"))?;
-    let identity = SigningIdentity::new(BasicCredential::new(spec.name.as_bytes().to_vec()).into_credential(), public);
+    let identity = SigningIdentity::new(BasicCredential::new(spec.identity_name.clone().unwrap_or(spec.name.clone()).as_bytes().to_vec()).into_credential(), public);
     Ok(Parts { ctl, log, gstore, kpstore, pskstore, rules, signer, identity })
 }
 
@@ -1115,6 +1117,7 @@ pub fn run_world<C: MlsConfig, E: ExternalMlsConfig + Clone + 'static>(script: &
             storage: m["storage"].as_str().unwrap_or("mem").to_string(),
             retention: m["retention"].as_u64().unwrap_or(3),
             dir: dir.to_path_buf(),
+            identity_name: m["identity_name"].as_str().map(|x| x.to_string()),
             exts: m["exts"].as_array().cloned().unwrap_or_default().iter().filter_map(|v| v.as_u64()).map(|v| v as u16).collect(),
         };
         let parts = match make_parts(&spec, suite) {
